@@ -97,6 +97,7 @@ probes! {
     // ---- attribution
     ended_by_c04 => "runs.ended_by_C04_clause",
     ended_by_c12 => "runs.ended_by_C12_clause",
+    c04_observer_in_c12 => "runs.c04_observer_clause_seen_and_passed_over_in_C12_run",
     regen => "gen.candidates_redrawn_for_range_precondition",
     gen_fallback => "gen.no_valid_candidate_fallback",
     // ---- RNG engine
